@@ -144,6 +144,69 @@ def core(ops):
     return [o for o in ops if o.split(":")[0] in ("create_tmp", "write", "rename", "remove", "open_trunc") or o.endswith("!")]
 
 
+
+# --------------------------------------------------------------------------- kinds of target
+KINDS = ["regular", "hardlink", "hardlink-otherdir", "symlink-same", "symlink-other", "symlink-chain"]
+
+
+def build_layout(d, kind, content, mode):
+    """creates the scratch directory; returns (path given to falco, real file, other names of the same inode, symlinks)"""
+    if os.path.isdir(d):
+        for r, ds, _ in os.walk(d):
+            os.chmod(r, 0o755)
+        shutil.rmtree(d)
+    os.makedirs(os.path.join(d, "sub"))
+    arg = os.path.join(d, "f.vcl")
+    real = arg
+    aliases, links = [], {}
+    if kind.startswith("symlink"):
+        real = os.path.join(d, "real.vcl") if kind == "symlink-same" else os.path.join(d, "sub", "real.vcl")
+    with open(real, "wb") as f:
+        f.write(content)
+    os.chmod(real, mode)
+    if kind == "hardlink":
+        aliases = [os.path.join(d, "other.lnk")]
+    elif kind == "hardlink-otherdir":
+        aliases = [os.path.join(d, "sub", "other.lnk"), os.path.join(d, "third.lnk")]
+    for a in aliases:
+        os.link(real, a)
+    if kind == "symlink-same":
+        links[arg] = "real.vcl"
+    elif kind == "symlink-other":
+        links[arg] = os.path.join("sub", "real.vcl")
+    elif kind == "symlink-chain":
+        links[os.path.join(d, "hop.vcl")] = os.path.join(d, "sub", "real.vcl")     # absolute
+        links[arg] = "hop.vcl"
+    elif kind == "dangling":
+        os.remove(real)
+        links[arg] = "missing.vcl"
+        real = None
+    for l, t in links.items():
+        if os.path.lexists(l):
+            os.remove(l)
+        os.symlink(t, l)
+    return arg, real, aliases, links
+
+
+def snapshot(d):
+    out = {}
+    for r, ds, fs in os.walk(d):
+        for n in fs + ds:
+            p = os.path.join(r, n)
+            rel = os.path.relpath(p, d)
+            if os.path.islink(p):
+                out[rel] = ("link", os.readlink(p))
+            elif os.path.isfile(p):
+                st = os.stat(p)
+                out[rel] = ("file", open(p, "rb").read(), stat.S_IMODE(st.st_mode))
+    return out
+
+
+def sweep_offsets(o, l):
+    """write-size limits around everything that matters: 0, 1, the original size, the formatted size, midpoints"""
+    c = {0, 1, o - 1, o, o + 1, o // 2, (o + l) // 2, l // 2, l - 1, l, l + 1, min(o, l) + 1, max(o, l) - 1}
+    return sorted(x for x in c if x >= 0)
+
 # --------------------------------------------------------------------------- one run
 class Case:
     def __init__(self, root, n, content, label):
@@ -277,7 +340,7 @@ def run(ctx):
             scen.append(("fsize-0", ["prlimit", "--fsize=0"], [], None, None, "", "all", False))
 
         if not thorough and n >= full_for:
-            keep = [scen[0]] + rng.sample(scen[1:], min(len(scen) - 1, 7))
+            keep = [scen[0]] + rng.sample(scen[1:], min(len(scen) - 1, 4))
             scen = keep
         for name, prefix, inj, fmode, dmode, faults, k, killed in scen:
             p = case.fresh(mode=fmode or rng.choice([0o644, 0o600, 0o664, 0o755]))
@@ -325,6 +388,190 @@ def run(ctx):
             mchecks.append((rep, rc2, data, tmps, ops, killed, content, out, cls))
         shutil.rmtree(case.d, ignore_errors=True)
 
+    # ------------------------------------------------------------ kinds of target x sweep of write-fault offsets
+    # every name of the file's inode (hard links, the file a symbolic link resolves to) and everything else in the
+    # scratch tree is observed: original bytes or the formatted text; on failure original; symbolic links stay links.
+    sweep_inputs = [(c, l) for c, l in inputs if l.startswith("corpus/simple")]
+    sweep_inputs += [
+        (b'sub vcl_recv{set req.http.A="1";set req.http.B="2";if(req.http.C){unset req.http.D;}}\n', "one-line (grows)"),
+        (b'sub vcl_recv {\n\n\n\n      set   req.http.A   =   "1"  ;\n\n\n\n\n    unset    req.http.B   ;\n\n\n}\n\n\n\n\n', "blank lines (shrinks)"),
+        (b'sub vcl_recv {\r\n  set req.http.A = "1";\r\n}\r\n', "CRLF"),
+        (b'sub vcl_recv {\n  set req.http.A = "1";\n}', "no trailing newline"),
+        (b'', "empty"),
+    ]
+    for i in range(12 if thorough else 1):
+        sweep_inputs.append((g.program().encode(), "gen-program"))
+    kstats = {"runs": 0, "grows": 0, "shrinks": 0, "same_size": 0, "by_kind": {}, "offsets_between_sizes": 0}
+    for n, (content, label) in enumerate(sweep_inputs):
+        d = os.path.join(root, "k%d" % n)
+        arg, real, aliases, links = build_layout(d, "regular", content, 0o644)
+        rc, out, err = sh([FALCO, "fmt", arg])
+        evaluations += 1
+        if rc != 0:
+            continue
+        O, L = len(content), len(out)
+        kstats["grows" if L > O else "shrinks" if L < O else "same_size"] += 1
+        offs = sweep_offsets(O, L)
+        if thorough and max(O, L) <= 160:
+            offs = list(range(max(O, L) + 2))
+        for kind in KINDS:
+            for s_ in offs:
+                mode = rng.choice([0o644, 0o600, 0o664, 0o755, 0o640, 0o666])
+                arg, real, aliases, links = build_layout(d, kind, content, mode)
+                before = snapshot(d)
+                traced = kind == "regular"
+                tr = os.path.join(root, "trace-k%d" % n)
+                cmd = (["strace", "-f", "-y", "-o", tr, "-e", "trace=" + TRACE] if traced else []) + \
+                      ["prlimit", "--fsize=%d" % s_, FALCO, "fmt", "-w", arg]
+                rc2, o2, e2 = sh(cmd)
+                if rc2 == "hang":
+                    retried_hangs.append("%s/%s/%d" % (label, kind, s_))
+                    arg, real, aliases, links = build_layout(d, kind, content, mode)
+                    rc2, o2, e2 = sh(cmd, timeout=90)
+                evaluations += 1
+                kstats["runs"] += 1
+                kstats["by_kind"][kind] = kstats["by_kind"].get(kind, 0) + 1
+                if min(O, L) < s_ < max(O, L):
+                    kstats["offsets_between_sizes"] += 1
+                after = snapshot(d)
+                rep = {"label": label, "kind": kind, "scenario": "fsize=%d (original %d bytes, formatted %d)" % (s_, O, L),
+                       "content_hex": content.hex()[:4000], "command": " ".join(cmd[-5:]), "exit": rc2,
+                       "stderr": e2[-300:].decode("utf-8", "replace"), "class": "ok",
+                       "tree_after": {k: (v[0], v[1].hex()[:400] if v[0] == "file" else v[1]) for k, v in after.items()}}
+                if rc2 == "hang":
+                    ctx.violation("falco fmt -w hangs (%s, %s, fsize=%d)" % (label, kind, s_), rep)
+                    continue
+                # ---- direct oracle on the whole tree
+                for rel, v in before.items():
+                    a = after.get(rel)
+                    if v[0] == "link":
+                        if a != v:
+                            ctx.violation("fmt -w replaced or removed the symbolic link %s (%s, %s)" % (rel, label, kind), rep)
+                        continue
+                    if a is None or a[0] != "file":
+                        ctx.violation("fmt -w removed %s (%s, %s)" % (rel, label, kind), rep)
+                        continue
+                    if a[1] != content and a[1] != out:
+                        ctx.violation("fmt -w left %s neither with the original bytes nor with the formatted text: %d bytes (%s, %s, write limit %d, "
+                                      "original %d, formatted %d, exit %s)" % (rel, len(a[1]), label, kind, s_, O, L, rc2), rep)
+                    elif rc2 != 0 and a[1] != content:
+                        ctx.violation("fmt -w failed (exit %s) but %s changed (%s, %s, write limit %d)" % (rc2, rel, label, kind, s_), rep)
+                    if a[2] != v[2]:
+                        ctx.violation("fmt -w changed the mode of %s %o -> %o (%s, %s)" % (rel, v[2], a[2], label, kind), rep)
+                realrel = os.path.relpath(real, d)
+                if rc2 == 0 and after.get(realrel, (None, None))[1] != out:
+                    ctx.violation("fmt -w reported success but the file is not the formatted text (%s, %s)" % (label, kind), rep)
+                extra = sorted(set(after) - set(before))
+                # ---- against the model (target + leftover temporary file; the other names keep the original: C16_links_atomic)
+                data = after.get(realrel, (None, None))[1]
+                tmps = [after[x][1] for x in extra if after[x][0] == "file"]
+                if any(not os.path.basename(x).startswith(".falco-fmt-") for x in extra):
+                    ctx.violation("fmt -w created %s (%s, %s)" % (extra, label, kind), rep)
+                for al in aliases:
+                    ar = after.get(os.path.relpath(al, d))
+                    if ar is not None and ar[1] != content:
+                        ctx.violation("another hard link of the file does not hold the original bytes any more, Model/FsLinks.v says it does (%s, %s, "
+                                      "write limit %d, exit %s): %d bytes" % (label, kind, s_, rc2, len(ar[1])), rep)
+                ops = project(open(tr, errors="replace").read(), os.path.dirname(real), os.path.basename(real)) if traced and os.path.exists(tr) else None
+                rep["ops"] = ops
+                mreqs.append(model_req("new", "ok", out, content, ("3:short%d" % s_) if s_ < L else "", "all"))
+                mchecks.append((rep, rc2, data, tmps, ops, False, content, out, "ok"))
+        # a dangling symbolic link: nothing to format, nothing created
+        arg, real, aliases, links = build_layout(d, "dangling", content, 0o644)
+        before = snapshot(d)
+        rc2, o2, e2 = sh([FALCO, "fmt", "-w", arg])
+        evaluations += 1
+        kstats["by_kind"]["dangling"] = kstats["by_kind"].get("dangling", 0) + 1
+        if rc2 == 0 or snapshot(d) != before:
+            ctx.violation("fmt -w on a dangling symbolic link: exit %s, tree changed: %s" % (rc2, snapshot(d) != before),
+                          {"label": label, "kind": "dangling", "exit": rc2})
+        shutil.rmtree(d, ignore_errors=True)
+
+    # ------------------------------------------------------------ several files in one invocation, the k-th fails
+    ok_pool = []
+    for c, l in inputs:
+        if len(ok_pool) >= (12 if thorough else 5):
+            break
+        d = os.path.join(root, "probe")
+        arg, _, _, _ = build_layout(d, "regular", c, 0o644)
+        rc, out, err = sh([FALCO, "fmt", arg])
+        if rc == 0 and out != c and len(c) < 3000:
+            ok_pool.append((c, out))
+    # inputs falco fmt rejects; what it does with each (exit 1, panic = exit 2, or - on another tree - formats it after all)
+    # is taken from `falco fmt FILE`, never assumed
+    bad_pool = []
+    for c, l in inputs + [(b"sub vcl_recv {\n", "parse error"), (b'set req.http.X = "1";\n', "snippet")]:
+        if len(bad_pool) >= (10 if thorough else 5):
+            break
+        d = os.path.join(root, "probe")
+        arg, _, _, _ = build_layout(d, "regular", c, 0o644)
+        rc, out, err = sh([FALCO, "fmt", arg])
+        if rc in (1, 2):
+            bad_pool.append((c, rc, "exit %d: %s" % (rc, l)))
+    multi_runs = 0
+    multi_cases = []
+    if len(ok_pool) >= 2 and bad_pool:
+        for t in range(40 if thorough else 7):
+            nfiles = rng.choice([2, 3, 3, 4])
+            files = [rng.choice(ok_pool) + ("ok",) for _ in range(nfiles)]
+            how = rng.choice(["bad-file", "bad-file", "readonly", "fsize", "none"])
+            k = rng.randrange(nfiles)
+            if how == "bad-file":
+                b = rng.choice(bad_pool)
+                files[k] = (b[0], None, b[2])
+            multi_cases.append((files, how, k, rng.choice(["list", "glob"])))
+    for files, how, k, form in multi_cases:
+        d = os.path.join(root, "multi")
+        if os.path.isdir(d):
+            shutil.rmtree(d)
+        os.makedirs(d)
+        names = ["%c.vcl" % (97 + i) for i in range(len(files))]
+        for nme, (c, o, _) in zip(names, files):
+            with open(os.path.join(d, nme), "wb") as f:
+                f.write(c)
+        prefix = []
+        limit = None
+        if how == "readonly":
+            os.chmod(os.path.join(d, names[k]), 0o444)
+            prefix = DROP
+        elif how == "fsize":
+            sizes = sorted(len(o) for c, o, _ in files if o is not None)
+            limit = rng.choice([sizes[0] - 1, sizes[-1] - 1, (sizes[0] + sizes[-1]) // 2, sizes[-1]])
+            prefix = ["prlimit", "--fsize=%d" % max(0, limit)]
+            limit = max(0, limit)
+        argsv = [os.path.join(d, n_) for n_ in names] if form == "list" else [os.path.join(d, "*.vcl")]
+        rc2, o2, e2 = sh(prefix + [FALCO, "fmt", "-w"] + argsv)
+        evaluations += 1
+        multi_runs += 1
+        # expected by composition of the single-file protocol: files are handled in order, the first failure stops the run
+        exp, failed = [], False
+        exp_exit = 0
+        for i, (c, o, kindf) in enumerate(files):
+            if failed:
+                exp.append(c)
+                continue
+            bad = o is None or (how == "readonly" and i == k) or (limit is not None and len(o) > limit)
+            if bad:
+                failed = True
+                exp.append(c)
+                exp_exit = 2 if kindf.startswith("exit 2") else 1
+            else:
+                exp.append(o)
+        got = [open(os.path.join(d, n_), "rb").read() if os.path.exists(os.path.join(d, n_)) else None for n_ in names]
+        rep = {"files": [c.hex()[:2000] for c, _, _ in files], "fault": how, "k": k, "invocation": form, "exit": rc2,
+               "stderr": e2[-300:].decode("utf-8", "replace"), "after": [None if x is None else x.hex()[:2000] for x in got]}
+        for i, (gx, (c, o, _)) in enumerate(zip(got, files)):
+            if gx != c and gx != o:
+                ctx.violation("fmt -w with several files: file %d of %d is neither original nor formatted (%s at file %d)" % (i, len(files), how, k), rep)
+        if got != exp:
+            ctx.violation("fmt -w with several files: end state differs from the composition of the single-file protocol "
+                          "(files before the failing one formatted, it and the later ones untouched); %s at file %d, %s" % (how, k, form), rep)
+        if rc2 != exp_exit:
+            ctx.violation("fmt -w with several files: exit status %s, expected %s (%s at file %d)" % (rc2, exp_exit, how, k), rep)
+        if sorted(os.listdir(d)) != names:
+            ctx.violation("fmt -w with several files left extra files behind: %s" % sorted(os.listdir(d)), rep)
+        os.chmod(os.path.join(d, names[k]), 0o644)
+
     misfires = {}
     order_notes = set()
     mrep = V.run_batch([model], mreqs, hang_s=60)
@@ -359,6 +606,9 @@ def run(ctx):
         agree_state += ok_state
         # operations that change the file system, and every failed call, must coincide exactly and in order;
         # the position of effect-free successful calls (probe, chmod, fsync, close) is not part of the property
+        if ops is None:
+            agree_ops += 1
+            continue
         cops, cmops = core(ops), core(mops)
         if killed:
             same = cops == cmops[: len(cops)] or (cops and cops[:-1] == cmops[: len(cops) - 1])
@@ -379,13 +629,14 @@ def run(ctx):
         ctx.violation("proof obligation of C16 no longer checks: " + (ctx.broken or "Props/C16.v"),
                       {"no_failing_input": True, "broken": ctx.broken,
                        "searched": "%d inputs x fault scenarios (%d runs): file always original or formatted, unchanged on failure" % (len(inputs), len(mreqs))})
-    ctx.samples = [{"label": m[0]["label"], "scenario": m[0]["scenario"], "exit": m[1], "ops": ",".join(m[4])} for m in mchecks[:: max(1, len(mchecks) // 8)]][:10]
+    ctx.samples = [{"label": m[0]["label"], "scenario": m[0]["scenario"], "exit": m[1], "ops": ",".join(m[4] or ["(not traced)"])} for m in mchecks[:: max(1, len(mchecks) // 8)]][:10]
     ctx.coverage.update({
         "evaluations": evaluations,
         "distinct_nontrivial": len(distinct),
         "inputs": len(inputs), "input_classes": classes,
         "scenarios": dict(sorted(scen_count.items())), "runs_with_faults": len(mreqs),
         "ops_agree": agree_ops, "state_agree": agree_state,
+        "target_kinds_and_offset_sweep": kstats, "multi_file_invocations": multi_runs,
         "effect_free_order_differences": sorted(order_notes)[:5], "kill_injections_that_missed": misfires, "runs_retried_after_a_stall": retried_hangs,
         "generator_stats": dict(sorted(g.stats.items())[:40]),
     })
